@@ -14,9 +14,9 @@ LEVEL_TEXT = ('Partition: the invariant "no endpoint is both idle and active, no
               'Load tracking: every dispatch to a member adds exactly one to the outstanding counter and every release (first invocation of the release closure, whether or not the member is still active) takes exactly one off. '
               'The three hook overrides satisfy the hook contract under which C03/C04 are proved (same clause list), so those results hold for the aperture balancer too.')
 LEVEL_NOTE = ('NOT covered: the convergence sentence ("the per-member load settles inside the band or the size is pinned") -- a limit statement over traffic histories that no contract expresses; the value of the moving average (Ema.Update is an unconstrained real); '
-              '_Jitter/_ScheduleNextJitter (timer-driven expand-then-contract: built from the two verified operations, not itself under contract); the pending-endpoint guard beyond "pending and not forced => no contraction". '
+              '_Jitter (timer-driven expand-then-contract, built from the two verified operations: a contract is written but three exit-invariant conjuncts stay undecided in z3 and cvc5, so it is not registered -- DESIGN 9.7); _ScheduleNextJitter IS verified (delay within the configured bounds for every random outcome, one entry armed, nothing of the aperture touched); the pending-endpoint guard beyond "pending and not forced => no contraction". '
               'Trusted: pyvc encoding (reals for floats), z3/cvc5, random.choice as an arbitrary element, AsyncResult.ContinueWith registers a callback that runs later.')
-ASSUMPTIONS = ['the base-class body of a hook runs only for receivers whose class does not override it (entry assumption of the base hooks in the aperture aspect)', 'endpoints are truthy objects (the contraction scan tests "if not least_loaded_endpoint")', 'at construction no heap node exists yet and nobody is on a down list (the node universe of the invariant is per balancer)',
+ASSUMPTIONS = ['the base-class body of a hook runs only for receivers whose class does not override it (entry assumption of the base hooks in the aperture aspect)', 'endpoints are truthy objects (the contraction scan tests "if not least_loaded_endpoint")', 'at construction no heap node exists yet and nobody is on a down list (the node universe of the invariant is per balancer)', 'jitter_min_sec <= jitter_max_sec (random.randint raises otherwise) and the module-level low-resolution timer queue exists before any balancer',
                'notifications are delivered serially; no dispatch during the initial load']
-TRUSTED = ['ApertureBalancerSink._ScheduleNextJitter']
+TRUSTED = []
 BOUNDED = []
